@@ -17,7 +17,7 @@ ALG_NOTE = ("Trusted: Coq 8.16.1 kernel; translator tools/translate_algorithms.p
 
 CHECKS = {
     "C01": dict(cat="proof", tech="Coq theorem on the regenerated main_alg (translator) + exact differential oracle",
-                text="Theorems C01_kept / C01_eliminated (+ _two_block): for every BlockAlg (all block counts, sizes, parameter counts and orders at once) and every solution of the program translated from algorithms.py on this run, the kept part of the plain product U†HU equals H_tilde and the eliminated part vanishes; general wiring and the two-block optimisation. Rounding clause for floats monitored only.",
+                text="Theorems C01_kept / C01_eliminated (+ _two_block): for every BlockAlg (all block counts, sizes, parameter counts and orders at once) and every solution of the program translated from algorithms.py on this run, the kept part of the plain product U†HU equals H_tilde and the eliminated part vanishes; general wiring and the two-block optimisation. C01_tie_sound + C01_tie_conclusions: when the executable reading accepts the implementation's tables (check_alg) and the decidable side conditions (inputs_ok) hold - both evaluated by vm_compute for every k_semeq case - the conclusions of C01/C02/C03 hold for those tables up to order N as a theorem (truncated algebra, Alg/Trunc.v). Rounding clause for floats monitored only.",
                 note=ALG_NOTE),
     "C02": dict(cat="proof", tech="Coq theorem on the regenerated main_alg (translator) + exact differential oracle",
                 text="Theorems C02_UdU, C02_UUd, C02_adjoint, C02_Ht_hermitian (+ _two_block) for every solution of the regenerated main_alg in every BlockAlg.",
